@@ -11,7 +11,7 @@ pub enum Error {
     Key(Val),
     /// non-table value as root
     Root(Val),
-    /// null or byte string
+    /// null, byte string, or integer beyond 64 bits
     Val(Val),
 }
 
@@ -68,7 +68,8 @@ impl Display for Root<'_> {
 impl Display for Key<'_> {
     fn fmt(&self, f: &mut Formatter) -> fmt::Result {
         let is_bare = |c: &u8| c.is_ascii_alphanumeric() || b"_-".contains(c);
-        if self.0.iter().all(is_bare) {
+        // an empty key must be quoted
+        if !self.0.is_empty() && self.0.iter().all(is_bare) {
             bstr(self.0).fmt(f)
         } else {
             Value::String(self.0).fmt(f)
@@ -93,6 +94,11 @@ impl Display for Value<'_> {
             Self::Number(Num::Float(f64::INFINITY)) => "inf".fmt(f),
             Self::Number(Num::Float(f64::NEG_INFINITY)) => "-inf".fmt(f),
             Self::Number(Num::Float(n)) if n.is_nan() => "nan".fmt(f),
+            // a decimal literal beyond the range of a double is an infinite TOML float
+            Self::Number(Num::Dec(d)) => match Num::from_dec_str(d) {
+                Num::Float(x) if x.is_infinite() => if x > 0.0 { "inf" } else { "-inf" }.fmt(f),
+                _ => d.fmt(f),
+            },
             Self::Number(n) => n.fmt(f),
             Self::String(s) => write_utf8!(f, s, |part| write!(f, "{}", bstr(part))),
             Self::Array(a) => {
@@ -181,6 +187,8 @@ fn val_value<'a>(v: &'a Val) -> Result<Value<'a>, Error> {
     let kvs = |(k, v)| Ok((val_key(k)?, val_value(v)?));
     Ok(match v {
         Val::Null | Val::BStr(_) => Err(Error::Val(v.clone()))?,
+        // TOML integers are 64-bit signed; larger ones could not be read back
+        Val::Num(Num::BigInt(i)) if i64::try_from(&**i).is_err() => Err(Error::Val(v.clone()))?,
         Val::Bool(b) => Value::Boolean(*b),
         Val::TStr(b) => Value::String(b),
         Val::Num(n) => Value::Number(n),
